@@ -165,10 +165,12 @@ def main(c):
             with open(os.path.join(d, "t%d" % k, "a.check"), "w") as f:
                 f.write("".join('@Command "%s";\n' % x for x in cmds))
             args.append("t%d/a.check" % k)
-        env = {"C52_TRACE": os.path.join(d, "trace.txt"), "C52_SEED": str(seed), "C52_PERTURB": str(perturb)}
+        env = {"C52_TRACE": os.path.join(d, "trace.txt"), "C52_SEED": str(seed), "C52_PERTURB": str(perturb), "C52_WATCHDOG": "40"}
         rc, out, err = c.run([exe, "-j", str(jobs)] + args, cwd=d, env=env, timeout=300)
         log = open(os.path.join(d, "tfel-check.log"), errors="replace").read() if os.path.exists(os.path.join(d, "tfel-check.log")) else ""
         trace = open(env["C52_TRACE"]).read() if os.path.exists(env["C52_TRACE"]) else ""
+        if rc == 97 and os.path.exists(env["C52_TRACE"] + ".hang"):
+            err = "HANG\n" + open(env["C52_TRACE"] + ".hang", errors="replace").read()
         return rc, log, trace, err
 
     def run_one(ix):
@@ -213,6 +215,16 @@ def main(c):
             c.count(1, (name, tag), j > 1 and n > j)
             if (ix * 2 + (tag == "ref")) % 9 == 0:
                 c.sample({"scenario": name, "jobs": j, "checks": checks, "model_events_head": model[:18], "exit_status": rc})
+            if rc == 97 and err.startswith("HANG"):
+                stacks = [l[:160] for l in err.splitlines() if l.startswith("#") or l.startswith("Thread")]
+                rep["stacks_of_all_threads_after_40s"] = stacks[:120]
+                in_handler = sum(1 for l in stacks if "sigChildHandler" in l)
+                if in_handler and any("<signal handler called>" in l for l in stacks):
+                    c.report("F22:tfel-check-deadlock", "tfel-check -j %d did not finish on scenario %s (%d checks): %d threads are blocked in ProcessManager::sigChildHandler "
+                             "(called from the SIGCHLD signal handler) on the non-recursive mutex processesAccess" % (j, name, n, in_handler), rep, True)
+                else:
+                    c.report("hang:%s:%s" % (name, tag), "tfel-check -j %d did not finish within 40 s on scenario %s" % (j, name), rep, True)
+                continue
             if rc not in (0, 1):
                 if rc in (-11, -6) and j > 1:
                     # a crash of the multi-threaded run: SignalManager::treatAction calls handlers that another thread's
